@@ -6,7 +6,7 @@ from __future__ import annotations
 from checks.sctp_common import base_problems, session_classes
 from vlib.runner import Check, Family, Outcome
 from vlib.sctpsim import Session
-from vlib.strategies import session_case, yielding
+from vlib.strategies import bundling, session_case, yielding
 
 
 def run_session(case: dict) -> Outcome:
@@ -41,6 +41,10 @@ CHECK = Check(
         # the same space over a transport whose send suspends (a TURN relay binding or refreshing a channel)
         Family("yielding-send", run_session,
                lambda tier: yielding(session_case(tier, reliable_only=True, max_sends=40 if tier == "quick" else 60, loss_bias=True)),
+               quick=1500, thorough=40000, min_shard=20),
+        # ... and with a sender that bundles several chunks into one packet, as the other SCTP implementations do
+        Family("bundling", run_session,
+               lambda tier: bundling(session_case(tier, reliable_only=True, max_sends=40 if tier == "quick" else 60, loss_bias=True)),
                quick=1500, thorough=40000, min_shard=20),
     ],
     floor=200,
